@@ -1212,6 +1212,10 @@ class Machine:
             r = self.call_dunder(a, "__add__", [b])
             if r is not None:
                 return r
+        for h in getattr(self.world, "binop_hooks_sub", []):
+            r = h(self, op, a, b)
+            if r is not None:
+                return r
         raise EngineError(f"binary {type(op).__name__} on {a!r}, {b!r}")
 
     def call_dunder(self, recv: V, name: str, args: list[V]) -> V | None:
